@@ -400,9 +400,61 @@ def operator_protocol(rep: Report, prog: Program, rid: str) -> None:
         raise AnalysisError("no binary operator with a reflected counterpart found in the core module (R02.12 anchor moved)")
 
 
+def key_is_stored(rep: Report, prog: Program, rid: str) -> None:
+    """R02.13: an interned object is found again under the key computed from the arguments of the next call, and code that
+    walks the table (`Dimension.define` re-keys `_known` by `previous.exponents`) trusts that an object sits under the value of
+    its own key attribute.  So what `__new__` interns under and what `__init__` stores in that attribute must be the same
+    function of the arguments: a normalisation applied on one side only (padding, rounding, folding) splits them."""
+    import copy
+
+    def resolved(fi: Any, e: ast.AST, depth: int = 0) -> str:
+        local = {}
+        for st in ast.walk(fi.node):
+            if isinstance(st, ast.Assign) and len(st.targets) == 1 and isinstance(st.targets[0], ast.Name):
+                local.setdefault(st.targets[0].id, []).append(st.value)
+
+        class D(ast.NodeTransformer):
+            def visit_Name(self, n: ast.Name) -> ast.AST:
+                if isinstance(n.ctx, ast.Load) and len(local.get(n.id, [])) == 1 and n.id not in fi.params():
+                    return self.visit(copy.deepcopy(local[n.id][0]))
+                return n
+        return ast.unparse(D().visit(copy.deepcopy(e))).replace(" ", "")
+    for cls, attrs in (("Dimension", ["exponents"]), ("Prefix", ["base", "exponent"])):
+        new, init = prog.func(f"{cls}.__new__"), prog.func(f"{cls}.__init__")
+        keyexpr = None
+        for n in ast.walk(new.node):
+            # cls._known.setdefault(key, self) / cls._known[key] = self / key in cls._known
+            if isinstance(n, ast.Call) and isinstance(n.func, ast.Attribute) and n.func.attr == "setdefault" and "_known" in ast.unparse(n.func.value) and n.args:
+                keyexpr = n.args[0]
+            if isinstance(n, ast.Subscript) and "_known" in ast.unparse(n.value) and isinstance(n.ctx, ast.Store):
+                keyexpr = n.slice
+        if keyexpr is None:
+            raise AnalysisError(f"{cls}.__new__: no store into _known found (R02.13 anchor moved)")
+        ktxt = resolved(new, keyexpr)
+        stored = []
+        for a in attrs:
+            vals = [st.value for st in ast.walk(init.node) if isinstance(st, ast.Assign) and len(st.targets) == 1
+                    and isinstance(st.targets[0], ast.Attribute) and isinstance(st.targets[0].value, ast.Name) and st.targets[0].value.id == "self"
+                    and st.targets[0].attr == a]
+            if len(vals) != 1:
+                stored = []
+                break
+            stored.append(resolved(init, vals[0]))
+        if not stored:
+            rep.defer(AnalysisError(f"{cls}.__init__: key attributes {attrs} are not each assigned once"))
+            continue
+        want = stored[0] if len(stored) == 1 else "(" + ",".join(stored) + ")"
+        rep.check(rid, f"{cls}:key-vs-attribute", ktxt == want,
+                  f"{cls}.__new__ interns under `{ktxt}` while {cls}.__init__ stores `{want}` in {', '.join('self.' + a for a in attrs)}: the object does not sit "
+                  "under the value of its own key attribute, so table walks that re-key by it (Dimension.define) raise KeyError or lose entries, and an "
+                  "equal construction misses it", new.where(keyexpr))
+
+
 def run(rep: Report) -> None:
     prog = Program()
     resolver = Resolver(prog)
+    rep.rule("R02.13", "Dimension and Prefix are interned under exactly the value __init__ stores in their key attributes (no one-sided normalisation)", floor=2)
+    key_is_stored(rep, prog, "R02.13")
     rep.rule("R02.12", "operator protocol: a binary operator of the algebra classes rejects an unknown operand by returning NotImplemented, never by "
              "raising TypeError itself (another class of the package defines the reflected operator)", floor=8)
     operator_protocol(rep, prog, "R02.12")
